@@ -7,6 +7,8 @@
  *   VC_SCEN 3  next inside an object on "name scalar": decodes exactly what the bytes encode (oracle: spec/ref_binson.h)
  *   VC_SCEN 4  lookup that overshoots: cursor back at the first byte of the overshooting name, nothing else moved
  *   VC_SCEN 5  field-name order: a name that is not strictly greater (bytewise, shorter first) than the previous one is FORMAT
+ *   VC_SCEN 7  lookup that first skips a pending empty container and then overshoots: the cursor rests behind the
+ *              container, at the first byte of the name (a failed lookup re-reads at most the one name it overshot)
  *   VC_SCEN 6  a malformed token is rejected whatever the scan is (next, enter, leave, verify): skipping validates like entering
  */
 #include <stdlib.h>
@@ -156,6 +158,26 @@ void h_step(void)
     bool r = _advance_parsing(&p, sf, NULL);
     __CPROVER_assert(!r && p.error_flags == ((t.why == RW_RANGE) ? BINSON_ERROR_RANGE : BINSON_ERROR_FORMAT),
                      "a malformed token is rejected with the same code whatever the scan flags are");                        /*@ rule-independent-of-scan-flags */
+#elif VC_SCEN == 7
+    __CPROVER_assume(lv->flags == BINSON_STATE_IN_OBJ_EXPECTING_VALUE && lv->array_depth == 0 && o_depth < MD);
+    __CPROVER_assume(p.type == BINSON_PTYPE_OBJECT || p.depth > 1);      /* level 0 of an array-rooted parser is never an object level (class invariant) */
+    __CPROVER_assume(lv->current_name.bptr == NULL);
+    __CPROVER_assume(o_used + 2 < n);
+    __CPROVER_assume((buf[o_used] == 0x40 && buf[o_used + 1] == 0x41) || (buf[o_used] == 0x42 && buf[o_used + 1] == 0x43));
+    ref_token nt = ref_scan(buf, n, o_used + 2);
+    __CPROVER_assume(nt.kind == RT_STRING);
+    bbuf sn; sn.bsize = nondet_size_t();
+    __CPROVER_assume(sn.bsize <= 4);
+    uint8_t *snb = malloc(sn.bsize);
+    __CPROVER_assume(snb != NULL);
+    sn.bptr = snb;
+    __CPROVER_assume(ref_cmp(buf + nt.pay_off, nt.pay_len, snb, sn.bsize) > 0);
+    bool r = _advance_parsing(&p, BINSON_ADVANCE_VALUE, &sn);
+    __CPROVER_assert(!r && p.error_flags == BINSON_ERROR_NONE, "an overshooting lookup fails without an error");               /*@ overshoot-false-no-error */
+    __CPROVER_assert(p.buffer_used == o_used + 2,
+                     "the skipped container stays skipped: the cursor is at the first byte of the name it overshot");        /*@ rewind-bounded */
+    __CPROVER_assert(p.depth == o_depth && p.current_state == lv && lv->flags == BINSON_STATE_IN_OBJ_EXPECTING_FIELD,
+                     "a field is expected next at the same level");                                                           /*@ rewind-state-restored */
 #endif
     __CPROVER_assert(0, "vacuity control: step harness end reachable");
 }
